@@ -10,7 +10,7 @@ package client
 // token, sinceloop(e) = e with old() meaning "on first arrival at this loop".
 
 //@ spec wrote(w, i) = sinceloop(toksame(w) && ntok(w) == old(ntok(w)) + i && rpos(w) == old(rpos(w)))
-//@ spec readn(r, i) = sinceloop(rpos(r) == old(rpos(r)) + i)
+//@ spec readn(r, i) = sinceloop(rpos(r) == old(rpos(r)) + i) && !hitend(r)
 
 // ---- lists of uint32 indexes written as varints -------------------------------------------
 
@@ -20,12 +20,14 @@ package client
 //@   loop 0 invariant sinceloop(forall(q, old(ntok(w)), old(ntok(w)) + _i, tokkind(w, q) == 1 && tokval(w, q) == m.Indexes[q - old(ntok(w))]))
 
 //@ func (*SubscribeTx).Deserialize
-//@   serves C20
+//@   serves C20 C15
 //@   inline
-//@   safety index nil alloc allocbound
+//@   opt trackend = 1
+//@   safety [C20] index nil alloc allocbound
 //@   loop 0 invariant 0 <= _i && _i <= len(m.Indexes) && m != nil && len(m.Indexes) == count && readn(r, _i)
 //@   loop 0 invariant sinceloop(forall(k, 0, _i, m.Indexes[k] == uint32(tokval(r, old(rpos(r)) + k))))
 //@   loop 0 invariant sinceloop(same(m.Indexes) && oldrowsExcept(m.Indexes, arr(m.Indexes)))
+//@   ensures prefix_fails: [C15] hitend(r) ==> result != nil
 
 //@ func (UnsubscribeTx).Serialize
 //@   inline
@@ -33,12 +35,14 @@ package client
 //@   loop 0 invariant sinceloop(forall(q, old(ntok(w)), old(ntok(w)) + _i, tokkind(w, q) == 1 && tokval(w, q) == m.Indexes[q - old(ntok(w))]))
 
 //@ func (*UnsubscribeTx).Deserialize
-//@   serves C20
+//@   serves C20 C15
 //@   inline
-//@   safety index nil alloc allocbound
+//@   opt trackend = 1
+//@   safety [C20] index nil alloc allocbound
 //@   loop 0 invariant 0 <= _i && _i <= len(m.Indexes) && m != nil && len(m.Indexes) == count && readn(r, _i)
 //@   loop 0 invariant sinceloop(forall(k, 0, _i, m.Indexes[k] == uint32(tokval(r, old(rpos(r)) + k))))
 //@   loop 0 invariant sinceloop(same(m.Indexes) && oldrowsExcept(m.Indexes, arr(m.Indexes)))
+//@   ensures prefix_fails: [C15] hitend(r) ==> result != nil
 
 //@ func (SendTx).Serialize
 //@   inline
@@ -46,12 +50,14 @@ package client
 //@   loop 0 invariant sinceloop(forall(q, old(ntok(w)), old(ntok(w)) + _i, tokkind(w, q) == 1 && tokval(w, q) == m.Indexes[q - old(ntok(w))]))
 
 //@ func (*SendTx).Deserialize
-//@   serves C20
+//@   serves C20 C15
 //@   inline
-//@   safety index nil alloc allocbound
+//@   opt trackend = 1
+//@   safety [C20] index nil alloc allocbound
 //@   loop 0 invariant 0 <= _i && _i <= len(m.Indexes) && m != nil && len(m.Indexes) == count && readn(r, _i)
 //@   loop 0 invariant sinceloop(forall(k, 0, _i, m.Indexes[k] == uint32(tokval(r, old(rpos(r)) + k))))
 //@   loop 0 invariant sinceloop(same(m.Indexes, m.Tx) && oldrowsExcept(m.Indexes, arr(m.Indexes)))
+//@   ensures prefix_fails: [C15] hitend(r) ==> result != nil
 
 // ---- lists of outpoints (one object token each) ---------------------------------------------
 
@@ -61,13 +67,15 @@ package client
 //@   loop 0 invariant sinceloop(forall(q, old(ntok(w)), old(ntok(w)) + _i, tokkind(w, q) == objkind(wire.OutPoint) && tokval(w, q) == enc(*m.Outputs[q - old(ntok(w))])))
 
 //@ func (*SubscribeOutputs).Deserialize
-//@   serves C20
+//@   serves C20 C15
 //@   inline
-//@   safety index nil alloc allocbound
+//@   opt trackend = 1
+//@   safety [C20] index nil alloc allocbound
 //@   loop 0 invariant 0 <= _i && _i <= len(m.Outputs) && m != nil && len(m.Outputs) == count && readn(r, _i)
 //@   loop 0 invariant sinceloop(forall(k, 0, _i, m.Outputs[k] != nil && *m.Outputs[k] == decode(tokval(r, old(rpos(r)) + k), wire.OutPoint)))
 //@   loop 0 invariant sinceloop(same(m.Outputs) && oldrowsExcept(m.Outputs, arr(m.Outputs)))
 //@   loop 0 invariant sinceloop(forall(p *wire.OutPoint, !fresh(p) ==> same(p.Hash, p.Index)))
+//@   ensures prefix_fails: [C15] hitend(r) ==> result != nil
 
 //@ func (UnsubscribeOutputs).Serialize
 //@   inline
@@ -75,13 +83,15 @@ package client
 //@   loop 0 invariant sinceloop(forall(q, old(ntok(w)), old(ntok(w)) + _i, tokkind(w, q) == objkind(wire.OutPoint) && tokval(w, q) == enc(*m.Outputs[q - old(ntok(w))])))
 
 //@ func (*UnsubscribeOutputs).Deserialize
-//@   serves C20
+//@   serves C20 C15
 //@   inline
-//@   safety index nil alloc allocbound
+//@   opt trackend = 1
+//@   safety [C20] index nil alloc allocbound
 //@   loop 0 invariant 0 <= _i && _i <= len(m.Outputs) && m != nil && len(m.Outputs) == count && readn(r, _i)
 //@   loop 0 invariant sinceloop(forall(k, 0, _i, m.Outputs[k] != nil && *m.Outputs[k] == decode(tokval(r, old(rpos(r)) + k), wire.OutPoint)))
 //@   loop 0 invariant sinceloop(same(m.Outputs) && oldrowsExcept(m.Outputs, arr(m.Outputs)))
 //@   loop 0 invariant sinceloop(forall(p *wire.OutPoint, !fresh(p) ==> same(p.Hash, p.Index)))
+//@   ensures prefix_fails: [C15] hitend(r) ==> result != nil
 
 // ---- ReprocessTx: list of Hash20 values ------------------------------------------------------
 
@@ -91,12 +101,14 @@ package client
 //@   loop 0 invariant sinceloop(forall(q, old(ntok(w)), old(ntok(w)) + _i, tokkind(w, q) == objkind(bitcoin.Hash20) && tokval(w, q) == enc(m.ClientIDs[q - old(ntok(w))])))
 
 //@ func (*ReprocessTx).Deserialize
-//@   serves C20
+//@   serves C20 C15
 //@   inline
-//@   safety index nil alloc allocbound
+//@   opt trackend = 1
+//@   safety [C20] index nil alloc allocbound
 //@   loop 0 invariant 0 <= _i && _i <= len(m.ClientIDs) && m != nil && len(m.ClientIDs) == clientCount && readn(r, _i)
 //@   loop 0 invariant sinceloop(forall(k, 0, _i, m.ClientIDs[k] == decode(tokval(r, old(rpos(r)) + k), bitcoin.Hash20)))
 //@   loop 0 invariant sinceloop(same(m.ClientIDs, m.TxID) && oldrowsExcept(m.ClientIDs, arr(m.ClientIDs)))
+//@   ensures prefix_fails: [C15] hitend(r) ==> result != nil
 
 // ---- Headers: list of block headers (flat objects) -------------------------------------------
 
@@ -106,13 +118,15 @@ package client
 //@   loop 0 invariant sinceloop(forall(q, old(ntok(w)), old(ntok(w)) + _i, tokkind(w, q) == objkind(wire.BlockHeader) && tokval(w, q) == enc(*m.Headers[q - old(ntok(w))])))
 
 //@ func (*Headers).Deserialize
-//@   serves C20
+//@   serves C20 C15
 //@   inline
-//@   safety index nil alloc allocbound
+//@   opt trackend = 1
+//@   safety [C20] index nil alloc allocbound
 //@   loop 0 invariant 0 <= _i && _i <= len(m.Headers) && m != nil && len(m.Headers) == count && readn(r, _i)
 //@   loop 0 invariant sinceloop(forall(k, 0, _i, m.Headers[k] != nil && *m.Headers[k] == decode(tokval(r, old(rpos(r)) + k), wire.BlockHeader)))
 //@   loop 0 invariant sinceloop(same(m.Headers, m.RequestHeight, m.StartHeight) && oldrowsExcept(m.Headers, arr(m.Headers)))
 //@   loop 0 invariant sinceloop(forall(p *wire.BlockHeader, !fresh(p) ==> *p == old(*p)))
+//@   ensures prefix_fails: [C15] hitend(r) ==> result != nil
 
 // ---- push data: varint length + bytes ---------------------------------------------------------
 
@@ -124,13 +138,15 @@ package client
 //@        tokkind(w, q) == 3 && tokval(w, q) == blob(m.PushDatas[(q - old(ntok(w))) / 2]) && bloblen(tokval(w, q)) == len(m.PushDatas[(q - old(ntok(w))) / 2]))))
 
 //@ func (*SubscribePushData).Deserialize
-//@   serves C20
+//@   serves C20 C15
 //@   inline
-//@   safety index nil alloc allocbound
+//@   opt trackend = 1
+//@   safety [C20] index nil alloc allocbound
 //@   loop 0 invariant 0 <= i && i <= count && m != nil && readn(r, 2 * i) && sinceloop(len(m.PushDatas) == old(len(m.PushDatas)) + i)
 //@   loop 0 invariant sinceloop(forall(k, 0, i, len(m.PushDatas[old(len(m.PushDatas)) + k]) == tokval(r, old(rpos(r)) + 2*k)
 //@        && (len(m.PushDatas[old(len(m.PushDatas)) + k]) > 0 ==> blob(m.PushDatas[old(len(m.PushDatas)) + k]) == tokval(r, old(rpos(r)) + 2*k + 1))))
 //@   loop 0 invariant sinceloop(oldblobs() && oldrowsExcept(m.PushDatas, arr(old(m.PushDatas))) && (arr(m.PushDatas) == arr(old(m.PushDatas)) || fresharr(m.PushDatas)))
+//@   ensures prefix_fails: [C15] hitend(r) ==> result != nil
 
 //@ func (UnsubscribePushData).Serialize
 //@   inline
@@ -140,13 +156,15 @@ package client
 //@        tokkind(w, q) == 3 && tokval(w, q) == blob(m.PushDatas[(q - old(ntok(w))) / 2]) && bloblen(tokval(w, q)) == len(m.PushDatas[(q - old(ntok(w))) / 2]))))
 
 //@ func (*UnsubscribePushData).Deserialize
-//@   serves C20
+//@   serves C20 C15
 //@   inline
-//@   safety index nil alloc allocbound
+//@   opt trackend = 1
+//@   safety [C20] index nil alloc allocbound
 //@   loop 0 invariant 0 <= i && i <= count && m != nil && readn(r, 2 * i) && sinceloop(len(m.PushDatas) == old(len(m.PushDatas)) + i)
 //@   loop 0 invariant sinceloop(forall(k, 0, i, len(m.PushDatas[old(len(m.PushDatas)) + k]) == tokval(r, old(rpos(r)) + 2*k)
 //@        && (len(m.PushDatas[old(len(m.PushDatas)) + k]) > 0 ==> blob(m.PushDatas[old(len(m.PushDatas)) + k]) == tokval(r, old(rpos(r)) + 2*k + 1))))
 //@   loop 0 invariant sinceloop(oldblobs() && oldrowsExcept(m.PushDatas, arr(old(m.PushDatas))) && (arr(m.PushDatas) == arr(old(m.PushDatas)) || fresharr(m.PushDatas)))
+//@   ensures prefix_fails: [C15] hitend(r) ==> result != nil
 
 // ---- MerkleProof: path hashes, header, duplicated indexes ------------------------------------
 
@@ -158,15 +176,17 @@ package client
 //@   loop 1 invariant sinceloop(forall(q, old(ntok(w)), old(ntok(w)) + _i, tokkind(w, q) == 1 && tokval(w, q) == m.DuplicatedIndexes[q - old(ntok(w))]))
 
 //@ func (*MerkleProof).Deserialize
-//@   serves C20
+//@   serves C20 C15
 //@   inline
-//@   safety index nil alloc allocbound
+//@   opt trackend = 1
+//@   safety [C20] index nil alloc allocbound
 //@   loop 0 invariant 0 <= i && i <= count && m != nil && len(m.Path) == count && readn(r, i)
 //@   loop 0 invariant sinceloop(forall(k, 0, i, m.Path[k] == decode(tokval(r, old(rpos(r)) + k), bitcoin.Hash32)))
 //@   loop 0 invariant sinceloop(same(m.Path, m.Index) && oldrowsExcept(m.Path, arr(m.Path)))
 //@   loop 1 invariant 0 <= i && i <= count && m != nil && len(m.DuplicatedIndexes) == count && readn(r, i)
 //@   loop 1 invariant sinceloop(forall(k, 0, i, m.DuplicatedIndexes[k] == tokval(r, old(rpos(r)) + k)))
 //@   loop 1 invariant sinceloop(same(m.Path, m.Index, m.BlockHeader, m.DuplicatedIndexes) && oldrowsExcept(m.DuplicatedIndexes, arr(m.DuplicatedIndexes)))
+//@   ensures prefix_fails: [C15] hitend(r) ==> result != nil
 
 // ---- Tx: one TxOut object per input of the transaction ---------------------------------------
 
@@ -176,13 +196,15 @@ package client
 //@   loop 0 invariant sinceloop(forall(q, old(ntok(w)), old(ntok(w)) + _i, tokkind(w, q) == objkind(wire.TxOut) && tokval(w, q) == abs(m.Outputs[q - old(ntok(w))])))
 
 //@ func (*Tx).Deserialize
-//@   serves C20
+//@   serves C20 C15
 //@   inline
-//@   safety index nil alloc allocbound
+//@   opt trackend = 1
+//@   safety [C20] index nil alloc allocbound
 //@   loop 0 invariant 0 <= _i && _i <= len(m.Tx.TxIn) && m != nil && m.Tx != nil && len(m.Outputs) == len(m.Tx.TxIn) && readn(r, _i)
 //@   loop 0 invariant sinceloop(forall(k, 0, _i, m.Outputs[k] != nil && abs(m.Outputs[k]) == tokval(r, old(rpos(r)) + k)))
 //@   loop 0 invariant sinceloop(same(m.Outputs, m.Tx, m.ID, m.Tx.TxIn, abs(m.Tx)) && oldrowsExcept(m.Outputs, arr(m.Outputs)))
 //@   loop 0 invariant sinceloop(forall(p *wire.TxOut, !fresh(p) ==> abs(p) == old(abs(p))))
+//@   ensures prefix_fails: [C15] hitend(r) ==> result != nil
 
 // ---- PostMerkleProofs: list of dependency merkle proofs ---------------------------------------
 
@@ -192,13 +214,15 @@ package client
 //@   loop 0 invariant sinceloop(forall(q, old(ntok(w)), old(ntok(w)) + _i, tokkind(w, q) == objkind(merkle_proof.MerkleProof) && tokval(w, q) == enc(*m.MerkleProofs[q - old(ntok(w))])))
 
 //@ func (*PostMerkleProofs).Deserialize
-//@   serves C20
+//@   serves C20 C15
 //@   inline
-//@   safety index nil alloc allocbound
+//@   opt trackend = 1
+//@   safety [C20] index nil alloc allocbound
 //@   loop 0 invariant 0 <= _i && _i <= len(m.MerkleProofs) && m != nil && len(m.MerkleProofs) == count && readn(r, _i)
 //@   loop 0 invariant sinceloop(forall(k, 0, _i, m.MerkleProofs[k] != nil && *m.MerkleProofs[k] == decode(tokval(r, old(rpos(r)) + k), merkle_proof.MerkleProof)))
 //@   loop 0 invariant sinceloop(same(m.MerkleProofs) && oldrowsExcept(m.MerkleProofs, arr(m.MerkleProofs)))
 //@   loop 0 invariant sinceloop(forall(p *merkle_proof.MerkleProof, !fresh(p) ==> *p == old(*p)))
+//@   ensures prefix_fails: [C15] hitend(r) ==> result != nil
 
 // ---- FeeQuotes: five tokens per quote ----------------------------------------------------------
 
@@ -215,9 +239,10 @@ package client
 //@                                         tokkind(w, q) == 1 && tokval(w, q) == fq(m, q, old(ntok(w))).RelayFee.Bytes))))))
 
 //@ func (*FeeQuotes).Deserialize
-//@   serves C20
+//@   serves C20 C15
 //@   inline
-//@   safety index nil alloc allocbound
+//@   opt trackend = 1
+//@   safety [C20] index nil alloc allocbound
 //@   loop 0 invariant 0 <= _i && _i <= len(m.FeeQuotes) && m != nil && len(m.FeeQuotes) == count && readn(r, 5 * _i)
 //@   loop 0 invariant sinceloop(forall(k, 0, _i, m.FeeQuotes[k] != nil
 //@        && m.FeeQuotes[k].FeeType == uint8(tokval(r, old(rpos(r)) + 5*k))
@@ -225,6 +250,7 @@ package client
 //@        && m.FeeQuotes[k].RelayFee.Satoshis == tokval(r, old(rpos(r)) + 5*k + 3) && m.FeeQuotes[k].RelayFee.Bytes == tokval(r, old(rpos(r)) + 5*k + 4)))
 //@   loop 0 invariant sinceloop(same(m.FeeQuotes) && oldrowsExcept(m.FeeQuotes, arr(m.FeeQuotes)))
 //@   loop 0 invariant sinceloop(forall(p *merchant_api.FeeQuote, !fresh(p) ==> *p == old(*p)))
+//@   ensures prefix_fails: [C15] hitend(r) ==> result != nil
 
 // ---- SendExpandedTx: bsor blob + index list ----------------------------------------------------
 
@@ -234,12 +260,14 @@ package client
 //@   loop 0 invariant sinceloop(forall(q, old(ntok(w)), old(ntok(w)) + _i, tokkind(w, q) == 1 && tokval(w, q) == m.Indexes[q - old(ntok(w))]))
 
 //@ func (*SendExpandedTx).Deserialize
-//@   serves C20
+//@   serves C20 C15
 //@   inline
-//@   safety index nil alloc allocbound
+//@   opt trackend = 1
+//@   safety [C20] index nil alloc allocbound
 //@   loop 0 invariant 0 <= _i && _i <= len(m.Indexes) && m != nil && len(m.Indexes) == count && readn(r, _i)
 //@   loop 0 invariant sinceloop(forall(k, 0, _i, m.Indexes[k] == uint32(tokval(r, old(rpos(r)) + k))))
 //@   loop 0 invariant sinceloop(same(m.Indexes, m.Tx) && oldrowsExcept(m.Indexes, arr(m.Indexes)))
+//@   ensures prefix_fails: [C15] hitend(r) ==> result != nil
 
 // ---------------------------------------------------------------------------------------
 // RemoteClient: message-id gate (C17) and server authentication (C18)
